@@ -23,7 +23,7 @@ one canonical form of constructs that maintainers routinely rewrite into each ot
   S7  T i = a; while (c(i)) { body; ++i; } (no continue, i dead afterwards) -> for (T i = a; c(i); ++i) body
   S4  a void function body / a loop body that ends with `if (a && b) { X }` -> `if (!a) return / continue; if (!b) ...; X` (guard-clause form)
   S8  if (a > b) a = b; -> a = min(a, b); if (a < b) a = b; -> a = max(a, b)   (integers)
-  E11 x * 2^K -> x << K, unsigned x / 2^K -> x >> K, unsigned x % 2^K -> x & (2^K - 1) ;  E12 2 * i -> i * 2 ;  E15 const integral local initialised with a literal / named constant reads as that value ;  E14 !(a && b) -> !a || !b ;  E13 X.empty() -> X.size() == 0 (std containers) ;  S13b if (c) f |= v; -> f |= c ? v : 0 ;  S16 T x; x = e; -> T x = e ;  S17 T x = a; x |= b; -> T x = a | b ;  S15 pointer cursor over [B, B+N) -> index loop over B ;  S10 if (c) x = a; else x = b; -> x = c ? a : b ;  S13 if (c) b = true; -> b |= c ; if (c) b = false; -> b &= !c  (bool b)
+  E11 x * 2^K -> x << K, unsigned x / 2^K -> x >> K, unsigned x % 2^K -> x & (2^K - 1) ;  E12 2 * i -> i * 2 ;  E17 (x & A) | (x & B) -> x & (A | B) ;  E15 const integral local initialised with a literal / named constant reads as that value ;  E14 !(a && b) -> !a || !b ;  E13 X.empty() -> X.size() == 0 (std containers) ;  S13b if (c) f |= v; -> f |= c ? v : 0 ;  S16 T x; x = e; -> T x = e ;  S17 T x = a; x |= b; -> T x = a | b ;  S15 pointer cursor over [B, B+N) -> index loop over B ;  S10 if (c) x = a; else x = b; -> x = c ? a : b ;  S13 if (c) b = true; -> b |= c ; if (c) b = false; -> b &= !c  (bool b)
   S14 `T x = a; if (c) x = b;` -> `T x = c ? b : a;`   (a a plain read)
   S12 `if (ok) return; throw X;` at the end of a void function -> `if (!ok) throw X;`
   S5  `while (c) body` and `for (; c; ) body` are both exported as For nodes with empty init / increment
@@ -259,6 +259,30 @@ def norm_expr(e):
             e["op"] = "<<"
             sh = rv.bit_length() - 1
             e["r"] = dict(_strip(e["r"]), k="Int", v=sh, lit=str(sh))
+    if k == "Bin" and e.get("op") in ("|", "||") and not _is_float(e):
+        # E17: (x & A) | (x & B) -> x & (A | B)   (also for || of two bit tests used as conditions: one is set iff one of the bits is)
+        def bt(z):
+            z = _strip(z)
+            if isinstance(z, dict) and z.get("k") == "Cast" and z.get("t") == "bool":
+                z = _strip(z.get("e"))
+            if isinstance(z, dict) and z.get("k") == "Bin" and z.get("op") == "&":
+                for a, b in (("l", "r"), ("r", "l")):
+                    zb = _strip(z[b])
+                    m = _lit(z[b])
+                    if m is None and isinstance(zb, dict) and zb.get("k") not in ("Call", "OpCall", "Assign") and isinstance(zb.get("v"), int):
+                        m = zb["v"]       # a constant-folded mask: 1 << flags::IS_EMPTY
+                    za = _strip(z[a])
+                    if isinstance(m, int) and not isinstance(m, bool) and m > 0 and _lit(z[a]) is None and not (isinstance(za, dict) and isinstance(za.get("v"), int)):
+                        return z, z[a], m
+            return None
+        b1, b2 = bt(e["l"]), bt(e["r"])
+        if b1 and b2 and _txt(b1[1]) == _txt(b2[1]):
+            z = dict(b1[0])
+            lit = {"k": "Int", "v": b1[2] | b2[2], "lit": str(b1[2] | b2[2]), "t": e.get("t"), "sz": e.get("sz"), "loc": e.get("loc")}
+            z["l"], z["r"] = b1[1], lit
+            if e["op"] == "||":
+                return _boolcast(z, e)
+            return z
     if k == "Bin" and e.get("op") in FLIP:
         e = _zero_cmp(e)
         if e.get("k") != "Bin" or e.get("op") not in FLIP:
